@@ -17,6 +17,9 @@ INVARIANT TypeOK
 INVARIANT CounterAhead
 INVARIANT CtorIdsUnique
 INVARIANT KindsApart
+INVARIANT BestKind
+PROPERTY CopyIsolatesPosition
+PROPERTY MoveReachesBestOnlyThroughAlias
 PROPERTY VecSharedOnlyBySync
 PROPERTY FeatSharedOnlyBySync
 PROPERTY JsonIsolates
@@ -40,8 +43,18 @@ class Life(Part):
     coverage_strict = False
 
     def mc(self, ctx):
-        return [tlc.run("IndividualLife", MC_CFG % ((3, 5) if ctx.quick else (3, 7)), ctx.scratch, workers=8, coverage=True,
+        runs = [tlc.run("IndividualLife", MC_CFG % ((3, 5) if ctx.quick else (3, 7)), ctx.scratch, workers=8, coverage=True,
                         name="IndividualLife-mc", timeout=3000)]
+        # named deviation BestAliasesPosition: the invariant a reader would expect must be refuted by TLC (the model keeps its teeth)
+        r = tlc.run("IndividualLife", MC_CFG.replace("INVARIANT BestKind", "INVARIANT BestIsASnapshot") % (2, 3), ctx.scratch, workers=4,
+                    name="IndividualLife-snapshot")
+        if r.violated != "BestIsASnapshot":
+            raise tlc.MachineryError("BestIsASnapshot is no longer refuted (got %s)" % r.violated)
+        r = tlc.run("IndividualLife", MC_CFG.replace("INVARIANT BestKind", "INVARIANT ParticlesCanBeCopied") % (2, 3), ctx.scratch, workers=4,
+                    name="IndividualLife-copykey")
+        if r.violated != "ParticlesCanBeCopied":
+            raise tlc.MachineryError("ParticlesCanBeCopied is no longer refuted (got %s)" % r.violated)
+        return runs
 
     def cases(self, ctx):
         cases = []
@@ -63,16 +76,16 @@ class Life(Part):
             ops, n = [], 0
             for _ in range(rng.randint(5, 40)):
                 if n == 0 or rng.random() < 0.2:
-                    ops.append({"op": "new", "i": 0, "j": 0, "x": rng.randrange(10), "cls": rng.choice(["base", "nsga"])})
+                    ops.append({"op": "new", "i": 0, "j": 0, "x": rng.randrange(10), "cls": rng.choice(["base", "nsga", "swarm", "swarm"])})
                     n += 1
                     continue
-                op = rng.choice(["copy", "copynsga", "tofrom", "tofromjson", "sync", "setvec", "setcost", "setsigned", "setvec", "setcost", "setfeat", "setfeat"])
+                op = rng.choice(["copy", "copynsga", "copyswarm", "initpbest", "initpbest", "tofrom", "tofromjson", "sync", "setvec", "setcost", "setsigned", "setvec", "setcost", "setfeat", "setfeat"])
                 i = rng.randint(1, n)
                 j = rng.randint(1, n)
                 if op == "sync" and i == j:
                     continue
                 ops.append({"op": op, "i": i, "j": j if op == "sync" else 0, "x": rng.randrange(10), "cls": ""})
-                if op in ("copy", "copynsga", "tofrom", "tofromjson"):
+                if op in ("copy", "copynsga", "copyswarm", "tofrom", "tofromjson"):
                     n += 1
             cases.append({"kind": "random", "ops": ops})
         return cases
@@ -81,6 +94,7 @@ class Life(Part):
         from enum import Enum
         from artap.individual import Individual
         from artap.algorithm_NSGAII import IndividualNSGAII
+        from artap.algorithm_swarm import IndividualSwarm, SwarmAlgorithm
         base = Individual.counter
         objs = []
         tokens = {}          # id(list object) -> token (lists are kept alive in `keep`, so ids are never reused)
@@ -99,12 +113,16 @@ class Life(Part):
             return [int(v) if float(v) == int(v) else -999 for v in lst]
 
         def cls_of(o):
-            return "nsga" if type(o) is IndividualNSGAII else ("base" if type(o) is Individual else type(o).__name__)
+            return {IndividualNSGAII: "nsga", Individual: "base", IndividualSwarm: "swarm"}.get(type(o), type(o).__name__)
+
+        def best_tok(o):
+            b = o.features.get("best_vector") if isinstance(o.features, dict) else None
+            return 0 if b is None else tok(b)
 
         def snapshot(op, exc=""):
             recs = []
             for o in objs:
-                recs.append({"id": int(o.id) - base, "vec": tok(o.vector), "costs": tok(o.costs), "signed": tok(o.costs_signed), "feat": tok(o.features),
+                recs.append({"id": int(o.id) - base, "vec": tok(o.vector), "costs": tok(o.costs), "signed": tok(o.costs_signed), "feat": tok(o.features), "best": best_tok(o), "haskey": isinstance(o.features, dict) and "best_vector" in o.features,
                              "cls": cls_of(o), "pop": int(o.population_id), "state": o.state.name if isinstance(o.state, Enum) else str(o.state)})
             ev = dict(op)
             ev.update({"ev": "op", "exc": exc, "counter": Individual.counter - base, "objs": recs,
@@ -113,16 +131,19 @@ class Life(Part):
 
         for op in case["ops"]:
             name, i, j, x = op["op"], op["i"], op["j"], op["x"]
-            if case["kind"] == "random" and (i > len(objs) or j > len(objs) or (name == "copynsga" and type(objs[i - 1]) is not IndividualNSGAII)):
+            if case["kind"] == "random" and (i > len(objs) or j > len(objs) or (name == "copynsga" and type(objs[i - 1]) is not IndividualNSGAII)
+                                             or (name == "copyswarm" and (type(objs[i - 1]) is not IndividualSwarm or "best_vector" not in objs[i - 1].features))):
                 continue        # not enabled in the model either (random scripts only: an earlier skipped operation shifted the numbering)
 
             def body():
                 if name == "new":
-                    objs.append((IndividualNSGAII if op["cls"] == "nsga" else Individual)([float(x)]))
+                    objs.append({"nsga": IndividualNSGAII, "swarm": IndividualSwarm}.get(op["cls"], Individual)([float(x)]))
                 elif name == "copy":
                     objs.append(Individual.copy(objs[i - 1]))                 # the base-class copy (keeps the class)
-                elif name == "copynsga":
+                elif name in ("copynsga", "copyswarm"):
                     objs.append(objs[i - 1].copy())
+                elif name == "initpbest":
+                    SwarmAlgorithm.init_pbest([objs[i - 1]])
                 elif name == "tofrom":
                     objs.append(Individual.from_dict(objs[i - 1].to_dict()))
                 elif name == "tofromjson":
